@@ -237,31 +237,37 @@ def run(ctx: Ctx) -> None:
 
     # ---------------------------------------------------------------- R11.5
     ctx.rule("R11.5", "comment scans: every comment token recorded, NEWLINE clears the leading scan, real tokens are kept", minimum=5)
-    for qual in ("LexerTokenStream.get_doxygen",):
-        fn = lex.func(qual)
-        cfg = CFG(fn)
-        ctest = [n for n in cfg.nodes if n.kind == "test" and n.cond is not None and "COMMENT_SINGLELINE" in norm(n.cond) and "COMMENT_MULTILINE" in norm(n.cond)]
-        ok = len(ctest) == 1
-        why = "no branch for comment tokens"
-        if ok:
-            t = ctest[0]
-            apps = [n for n in cfg.nodes if n.kind == "stmt" and isinstance(n.stmt, ast.Expr) and isinstance(n.stmt.value, ast.Call) and norm(n.stmt.value.func).endswith("comments.append")]
-            tsucc = [s for s, lab in t.succ if lab == "T"]
-            # every path from the T edge reaches an append before leaving the branch (next loop test or exit)
-            ok = bool(apps) and all(s in apps or not _reaches_without(cfg, s, apps) for s in tsucc)
-            why = "a comment token can pass the scan without being recorded: a plain comment no longer delimits which declaration a doc comment belongs to"
-        ctx.ob("R11.5", f"lexer:{qual}|every comment token is recorded", ok, msg=why, node=fn, mod=lex)
+    # the leading scan, per class of token (one iteration of the loop that empties the front of the buffer)
+    from ..scanloop import leading_walks, REPRESENTATIVES as _REPS
     gd = lex.func("LexerTokenStream.get_doxygen")
-    gcfg = CFG(gd)
-    nl = [n for n in gcfg.nodes if n.kind == "test" and n.cond is not None and norm(n.cond) == "tok.type == 'NEWLINE'"]
-    ok = len(nl) == 1
-    if ok:
-        ts = [s for s, lab in nl[0].succ if lab == "T"]
-        ok = all(s.kind == "stmt" and norm(s.stmt) in ("comments.clear()", "comments = []") for s in ts)
-    ctx.ob("R11.5", "lexer:LexerTokenStream.get_doxygen|blank line detaches", ok, msg="a NEWLINE token no longer clears the pending comments: a detached block attaches across a blank line", node=gd, mod=lex)
-    txt = norm(gd)
-    ctx.ob("R11.5", "lexer:LexerTokenStream.get_doxygen|real token pushed back", "tokbuf.appendleft(tok)" in txt,
-           msg="the first real token is not pushed back", node=gd, mod=lex, nontrivial=False)
+    Fts = ctx.repo.folder("lexer", "TokenStream")
+    consts_ = {}
+    for k_ in ("_discard_types", "_discard_types_except_newline"):
+        if Fts.has(k_):
+            consts_[f"self.{k_}"] = tuple(sorted(Fts.get(k_)))
+    lws = leading_walks(lex, consts=consts_)
+    lby: Dict[str, list] = {}
+    for w in lws:
+        lby.setdefault(w.cls, []).append(w)
+    ctx.extra["leading_scan_walks"] = {k: sorted({(w.popped, w.outcome, w.recorded, w.cleared, w.pushed_back) for w in v}) for k, v in lby.items()}
+    for cname, v in sorted(lby.items()):
+        ttype, value = _REPS[cname]
+        if ttype in ("COMMENT_SINGLELINE", "COMMENT_MULTILINE"):
+            bad = [w for w in v if not (w.popped and w.recorded and not w.cleared and w.outcome == "continue")]
+            ctx.ob("R11.5", f"lexer:LexerTokenStream.get_doxygen|{cname} recorded, scan goes on", not bad,
+                   msg=f"the leading scan does not record a {cname} and go on (tests at lines {bad[0].trail if bad else ()}): a comment in front of a declaration is lost, detaches what was collected, or stops the scan", node=gd, mod=lex)
+        elif ttype == "NEWLINE":
+            bad = [w for w in v if not (w.popped and w.cleared and w.outcome == "continue")]
+            ctx.ob("R11.5", "lexer:LexerTokenStream.get_doxygen|blank line detaches", not bad,
+                   msg="a NEWLINE token no longer clears the pending comments: a detached block attaches across a blank line", node=gd, mod=lex)
+        elif ttype == "WHITESPACE":
+            bad = [w for w in v if w.cleared or w.recorded or w.outcome != "continue"]
+            ctx.ob("R11.5", "lexer:LexerTokenStream.get_doxygen|blanks change nothing", not bad,
+                   msg="a WHITESPACE token clears or joins the pending comments, or stops the scan", node=gd, mod=lex, nontrivial=False)
+        else:
+            bad = [w for w in v if w.recorded or w.cleared or w.outcome != "leave" or (w.popped and not w.pushed_back)]
+            ctx.ob("R11.5", f"lexer:LexerTokenStream.get_doxygen|{cname} stays in the buffer and ends the scan", not bad,
+                   msg=f"the first real token is not left (or put back) at the front of the buffer, or the scan goes past it (tests at lines {bad[0].trail if bad else ()})", node=gd, mod=lex)
     ga = lex.func("LexerTokenStream.get_doxygen_after")
     from ..scanloop import walks, REPRESENTATIVES
     ws, _, _ = walks(lex)
